@@ -249,3 +249,7 @@ class Ctx:
                     jsonschema.validate(json.load(open(p)), json.load(fh))
         except ImportError:
             pass
+        except Exception as ex:  # noqa: a failed run (error is set) may have nothing to report; never turn that into a traceback
+            if error is None:
+                raise
+            print("ANALYSIS-ERROR property=%s evidence of the failed run does not validate: %s" % (self.prop, str(ex).splitlines()[0]))
